@@ -176,6 +176,44 @@ func (c *chunkReader) Read(p []byte) (int, error) {
 	return k, nil
 }
 
+// deepTracked is one shared value: 1000 plain arrays, then named map / named slice / pointer levels (the kinds whose
+// addresses the encoder tracks once it is that deep), and an ill-formed string at the bottom. Marshal refuses it under
+// default options and accepts it under AllowInvalidUTF8; both calls walk the very same maps, slices and pointers.
+type trackedMap map[string]any
+type trackedSlice []any
+type trackedNode struct{ Next any }
+
+var deepTracked = func() any {
+	var v any = "ill-formed \xff leaf"
+	for i := 0; i < 9; i++ {
+		switch i % 3 {
+		case 0:
+			v = trackedMap{"k": v, "j": trackedMap{}}
+		case 1:
+			v = trackedSlice{v}
+		case 2:
+			v = &trackedNode{Next: v}
+		}
+	}
+	for i := 0; i < 1000; i++ {
+		v = []any{v}
+	}
+	return v
+}()
+
+var wideObject = func() []byte {
+	var sb strings.Builder
+	sb.WriteString("{")
+	for i := 1299; i >= 0; i-- {
+		fmt.Fprintf(&sb, `"k%04d":%d`, i, i%5)
+		if i > 0 {
+			sb.WriteString(",")
+		}
+	}
+	sb.WriteString("}")
+	return []byte(sb.String())
+}()
+
 func deep(n int) any {
 	var v any = "leaf"
 	for i := 0; i < n; i++ {
@@ -277,6 +315,19 @@ func Alphabet() []Call {
 			return mk(b, err)
 		}},
 		{"Marshal 1001-deep value", func() Result { b, err := jsonv2.Marshal(deep(1001)); return mk(len(b), err) }},
+		{"Marshal failing below 1005 tracked containers (ill-formed leaf)", func() Result {
+			b, err := jsonv2.Marshal(deepTracked, jsonv2.Deterministic(true))
+			return mk(len(b), err)
+		}},
+		{"Marshal of the same tracked containers with AllowInvalidUTF8", func() Result {
+			b, err := jsonv2.Marshal(deepTracked, jsonv2.Deterministic(true), jsontext.AllowInvalidUTF8(true))
+			return mk(len(b), err)
+		}},
+		{"Canonicalize of a 1300-member object in descending order", func() Result {
+			v := append(jsontext.Value(nil), wideObject...)
+			err := v.Canonicalize()
+			return mk(fmt.Sprintf("%d %s", len(v), v[:min(len(v), 40)]), err)
+		}},
 		{"Marshal cyclic value", func() Result { b, err := jsonv2.Marshal(cyc); return mk(len(b) > 0, err) }},
 		{"Marshal with panicking MarshalJSONTo at depth 2", func() Result {
 			return recoverAs(func() Result { b, err := jsonv2.Marshal([]any{1, map[string]any{"p": panicker{1}}}); return mk(b, err) })
